@@ -49,7 +49,7 @@ def main(tier: str) -> int:
                 per_component: Dict[str, List[str]] = {}
                 for q in pids:
                     per_component.setdefault("/".join(q.split("/")[:2]), []).append(q)
-                pids = [q for qs in per_component.values() for q in qs[:2]]
+                pids = [q for qs in per_component.values() for q in (qs if qs[0].startswith("verif.gen/") else qs[:2])]
                 run.cap("quick: at most the first two testcases of every component are tried as units")
             return [{"pid": q, "out_dir": d, "transform": t} for q in pids for t in ts]
 
@@ -66,9 +66,9 @@ def main(tier: str) -> int:
             run.add("transitions")
             if r.get("status") == "raise":
                 # JAX itself may reject T(f): decided on the oracle side, which evaluates T(f) eagerly
-                return {"pid": j["pid"], "path": "", "tier": "quick", "transform": j["transform"], "export_error": [r["type"], r["msg"][:200]]}
+                return {"pid": j["pid"], "path": "", "tier": "c10", "transform": j["transform"], "export_error": [r["type"], r["msg"][:200]]}
             stats["exported"] += 1
-            return {"pid": j["pid"], "path": r["path"], "tier": "quick" if tier == "quick" else "quick", "transform": j["transform"]}
+            return {"pid": j["pid"], "path": r["path"], "tier": "c10", "transform": j["transform"]}
 
         for p, r in two_stage(("mc.runners", "export_job"), jobs1, ("checks.c10", "job_oracle"), mk2, timeout1=240, timeout2=300):
             ident = f"{p['pid']}|{p['transform']}"
